@@ -768,9 +768,18 @@ func (p *CodeBuilder) instantiate(nidx int, args []*internal.Elem, src ...ast.No
 	return p
 }
 
+// variadicFlag returns InstrFlagEllipsis for a variadic target signature: its
+// final parameter already has the slice type.
+func variadicFlag(sig *types.Signature) InstrFlags {
+	if sig.Variadic() {
+		return InstrFlagEllipsis
+	}
+	return 0
+}
+
 func instanceInferFunc(pkg *Package, arg *internal.Elem, tsig *inferFuncType, sig *types.Signature) error {
 	args := paramsToArgs(sig)
-	targs, _, err := inferFunc(tsig.pkg, tsig.fn, tsig.typ, tsig.targs, args, 0)
+	targs, _, err := inferFunc(tsig.pkg, tsig.fn, tsig.typ, tsig.targs, args, variadicFlag(sig))
 	if err != nil {
 		return err
 	}
@@ -795,7 +804,7 @@ func instanceInferFunc(pkg *Package, arg *internal.Elem, tsig *inferFuncType, si
 
 func instanceFunc(pkg *Package, arg *internal.Elem, tsig *types.Signature, sig *types.Signature) error {
 	args := paramsToArgs(sig)
-	targs, _, err := inferFunc(pkg, &internal.Elem{Val: arg.Val}, tsig, nil, args, 0)
+	targs, _, err := inferFunc(pkg, &internal.Elem{Val: arg.Val}, tsig, nil, args, variadicFlag(sig))
 	if err != nil {
 		return err
 	}
